@@ -165,7 +165,7 @@ Proof.
         -- unfold emit. rewrite Hc. unfold mon_step. simpl.
            destruct again; simpl; (done_open; split; auto). intros j. rewrite Hact. unfold active, set_ops; simpl.
            rewrite (active_remove_cancelled _ _ _ j W1 F C). reflexivity.
-        -- destruct r; [| |rewrite F, K, C in Hoff; discriminate]; unfold emit; rewrite Hc; unfold mon_step; simpl.
+        -- destruct r; [| |rewrite ?F, ?K, ?C in Hoff; discriminate]; unfold emit; rewrite Hc; unfold mon_step; simpl.
            ++ done_open. split; auto.
            ++ rewrite Hact. unfold active. rewrite (active_of_live _ _ _ F C). done_open. split; auto.
       * destruct (o_cancelled o) eqn:C.
@@ -280,7 +280,7 @@ Proof.
         -- unfold emit. rewrite Hc. unfold mon_step. simpl.
            destruct again; simpl; (done_open; split; auto). intros j. unfold active at 1. unfold set_ops; simpl.
            rewrite (active_remove_cancelled _ _ _ j W1 F C). apply Hact.
-        -- destruct r; [| |rewrite F, K, C in Hoff; discriminate]; unfold emit; rewrite Hc; unfold mon_step; simpl.
+        -- destruct r; [| |rewrite ?F, ?K, ?C in Hoff; discriminate]; unfold emit; rewrite Hc; unfold mon_step; simpl.
            ++ done_open. split; auto.
            ++ rewrite (Hact _ (active_of_live _ _ _ F C)). done_open. split; auto.
       * destruct (o_cancelled o) eqn:C.
